@@ -81,6 +81,17 @@ CLAIMS = {
              'prefix is differential (formatter model is C14)',
         technique='Coq proof (prefix-monotonicity of every parsing stage) + differential correspondence on all truncations',
         ref='DESIGN.md §5 C06'),
+    'C16': dict(
+        text='Coq theorems c16_total (every record with the mandatory keys and ANY subset of the optional keys, values in '
+             'range, decodes - by induction over the chain, the two table side conditions re-evaluated on the regenerated '
+             'tables), c16_fields (present key -> converted value, absent -> declared default, for every declared field), '
+             'c16_string_index, c16_time (exact integer microseconds), c16_traceid (parse = exact inverse of the bit packing '
+             'for every defined namespace/type/flag); closed under the global context. Chain, dataclass fields, enums and maps '
+             'are regenerated from os_log_event.py on every run; object-exact correspondence incl. decomposed messages.',
+        note='trusted: Coq kernel+vm_compute; tr_oslog.py translator (fail-closed, validated by the correspondence); OsLog.v '
+             'semantics of the conversions; enum/IntFlag construction rules; partial: float addition in unix_date not modelled '
+             '(compared for sec < 2^31)', technique='Coq proof over generated tables + differential correspondence',
+        ref='DESIGN.md §5 C16'),
     'C12': dict(
         text='Coq theorems c12_events/sat_meaning/logs/no_logs_in_events/no_events_in_logs: for EVERY stream and EVERY '
              'configuration the filtered listings equal `filter` of the unfiltered listing by the stated predicate (order and '
